@@ -832,6 +832,7 @@ def signature_for(t, got, exp_kind):
 
 # ------------------------------------------------------------------ the check
 def run(ctx):
+    C.config_matrix(ctx["report"], ctx["rundir"], "C12", ["sum(1..10)", "median({3, 1, 2})", "{x*x : x in 1..4, x % 2 == 0}", "range(1, 2, 1/4)", "mean({1 m, 3 m})", "max({1/3, 0.3})", "1/3 in {1/3}", "{x : x in 1..2, x in 4..6}", "size(range(1, 10^30, 10^29))", "a = {3, 1, 2}; {median(a) + x : x in a}"])
     # --- history relations (coordinator): an aggregate leaves the array it was applied to unchanged, and lazy
     #     values are accepted on either side of `..`
     _items = []
